@@ -1493,6 +1493,195 @@ theorem C12_passF_success_sorted (w : FWorld) (hw : LinkedSet.WorldWF w.sw.rw)
   rw [hwd]
   exact (C12_pass_success_sorted w.sw hw roots gls hyp hdj hokW).2
 
+/-! ## Part J — the pass after the proposed fix D392 (restore only graph-likes whose order changed) -/
+
+theorem changedB_false : ∀ {a b : List Nat}, a.length = b.length → changedB a b = false → a = b
+  | [], [], _, _ => rfl
+  | [], _ :: _, h, _ => by simp at h
+  | _ :: _, [], h, _ => by simp at h
+  | x :: a, y :: b, h, hc => by
+    simp only [changedB, List.zip_cons_cons, List.any_cons, Bool.or_eq_false_iff, bne_eq_false_iff_eq] at hc
+    have := changedB_false (a := a) (b := b) (by simpa using h) hc.2
+    rw [hc.1, this]
+
+/-- the restore loop of D392: every recorded graph ends with its recorded sequence -/
+theorem restoreD_all (w0 : SWorld) : ∀ (gls : List Nat) (s : SWorld × List (Nat × List Nat)),
+    LinkedSet.WorldWF s.1.rw → (∀ k, (s.1.order k).Perm (w0.order k)) →
+    LinkedSet.WorldWF (gls.foldl (restoreStepWD w0) s).1.rw ∧
+    (∀ k, ((gls.foldl (restoreStepWD w0) s).1.order k).Perm (w0.order k)) ∧
+    (∀ k, (k ∈ gls ∨ s.1.order k = w0.order k) → (gls.foldl (restoreStepWD w0) s).1.order k = w0.order k) := by
+  intro gls
+  induction gls with
+  | nil => intro s hw hp; exact ⟨hw, hp, fun k hk => hk.elim (fun h => by simp at h) id⟩
+  | cons k0 gls ih =>
+    intro s hw hp
+    simp only [List.foldl_cons]
+    by_cases hc : changedB (w0.order k0) (s.1.order k0) = true
+    · obtain ⟨s1, s2, s3, s4⟩ := restore_step (fun k => w0.order k) hw hp k0
+      have hstep : restoreStepWD w0 s k0 = (applyWrite s.1 (k0, w0.order k0), s.2 ++ [(k0, w0.order k0)]) := by
+        simp [restoreStepWD, hc]
+      rw [hstep]
+      obtain ⟨i1, i2, i3⟩ := ih (applyWrite s.1 (k0, w0.order k0), s.2 ++ [(k0, w0.order k0)]) s1 s2
+      refine ⟨i1, i2, ?_⟩
+      intro k hk
+      apply i3
+      rcases hk with hk | hk
+      · rcases List.mem_cons.1 hk with rfl | hk
+        · exact Or.inr s4
+        · exact Or.inl hk
+      · exact Or.inr (s3 k hk)
+    · have hc' : changedB (w0.order k0) (s.1.order k0) = false := by
+        cases h : changedB (w0.order k0) (s.1.order k0) <;> simp_all
+      have hstep : restoreStepWD w0 s k0 = s := by simp [restoreStepWD, hc']
+      rw [hstep]
+      obtain ⟨i1, i2, i3⟩ := ih s hw hp
+      refine ⟨i1, i2, ?_⟩
+      intro k hk
+      apply i3
+      rcases hk with hk | hk
+      · rcases List.mem_cons.1 hk with rfl | hk
+        · exact Or.inr (changedB_false (hp k).length_eq.symm hc').symm
+        · exact Or.inl hk
+      · exact Or.inr hk
+
+/-- **C12_state_pass_atomic_D392**: `C12_state_pass_atomic` for the pass as it is after the proposed fix D392
+    (`passWD`: the restore loop re-extends only the graph-likes whose order changed, tested when the loop gets to them):
+    same four conclusions - in particular on `ValueError` EVERY recorded graph holds exactly the node sequence it held
+    before the call (a graph that is skipped is one whose sequence is already the recorded one). -/
+theorem C12_state_pass_atomic_D392 (w : SWorld) (hw : LinkedSet.WorldWF w.rw)
+    (roots : List (Nat × List Nat)) (gls : List Nat) (hyp : PassHyp w roots) :
+    LinkedSet.WorldWF (passWD w roots gls).world.rw ∧
+    (∀ k, ((passWD w roots gls).world.order k).Perm (w.order k)) ∧
+    ((passWD w roots gls).out = .valueError →
+      ∀ k ∈ gls, (passWD w roots gls).world.order k = w.order k) ∧
+    ((passWD w roots gls).out ≠ .valueError → passWD w roots gls = passSortsW w roots) := by
+  obtain ⟨p1, p2⟩ := passSortsW_perm roots w hw hyp
+  unfold passWD
+  by_cases hv : (passSortsW w roots).out = .valueError
+  · rw [if_pos hv]
+    obtain ⟨r1, r2, r3⟩ := restoreD_all w gls ((passSortsW w roots).world, []) p1 p2
+    exact ⟨r1, r2, fun _ k hk => r3 k (Or.inl hk), fun h => absurd rfl h⟩
+  · rw [if_neg hv]
+    exact ⟨p1, p2, fun h => absurd h hv, fun _ => rfl⟩
+
+theorem restoreWD_prefix (w0 : SWorld) : ∀ (gls : List Nat) (s : SWorld × List (Nat × List Nat)),
+    s.2 <+: (gls.foldl (restoreStepWD w0) s).2 := by
+  intro gls
+  induction gls with
+  | nil => intro s; exact List.prefix_refl _
+  | cons k gls ih =>
+    intro s
+    simp only [List.foldl_cons]
+    by_cases hc : changedB (w0.order k) (s.1.order k) = true
+    · have hW : restoreStepWD w0 s k = (applyWrite s.1 (k, w0.order k), s.2 ++ [(k, w0.order k)]) := by
+        simp [restoreStepWD, hc]
+      rw [hW]
+      exact (List.prefix_append s.2 [(k, w0.order k)]).trans
+        (ih (applyWrite s.1 (k, w0.order k), s.2 ++ [(k, w0.order k)]))
+    · have hW : restoreStepWD w0 s k = s := by simp [restoreStepWD, hc]
+      rw [hW]; exact ih s
+
+theorem restoreFD_skip (w0 : SWorld) : ∀ (gls : List Nat) (s : WSt), s.late = true →
+    gls.foldl (restoreStepFD w0) s = s := by
+  intro gls
+  induction gls with
+  | nil => intro s _; rfl
+  | cons k gls ih =>
+    intro s hs
+    simp only [List.foldl_cons]
+    rw [show restoreStepFD w0 s k = s by simp [restoreStepFD, hs]]
+    exact ih s hs
+
+/-- the two restore loops of D392 side by side -/
+theorem restoreFD_gen (w0 : SWorld) : ∀ (gls : List Nat) (sF : WSt) (sW : SWorld × List (Nat × List Nat)),
+    sF.late = false → sF.world.sw = sW.1 → sF.trace = sW.2 →
+    (gls.foldl (restoreStepFD w0) sF).trace <+: (gls.foldl (restoreStepWD w0) sW).2 ∧
+    ((gls.foldl (restoreStepFD w0) sF).late = false →
+      (gls.foldl (restoreStepFD w0) sF).world.sw = (gls.foldl (restoreStepWD w0) sW).1 ∧
+      (gls.foldl (restoreStepFD w0) sF).trace = (gls.foldl (restoreStepWD w0) sW).2) := by
+  intro gls
+  induction gls with
+  | nil =>
+    intro sF sW _ hw ht
+    simp only [List.foldl_nil]
+    exact ⟨by rw [ht]; exact List.prefix_refl _, fun _ => ⟨hw, ht⟩⟩
+  | cons k gls ih =>
+    intro sF sW hl hw ht
+    simp only [List.foldl_cons]
+    by_cases hc : changedB (w0.order k) (sW.1.order k) = true
+    · have hcF : changedB (w0.order k) (sF.world.sw.order k) = true := by rw [hw]; exact hc
+      have hW : restoreStepWD w0 sW k = (applyWrite sW.1 (k, w0.order k), sW.2 ++ [(k, w0.order k)]) := by
+        simp [restoreStepWD, hc]
+      have hF : restoreStepFD w0 sF k = writeStep sF (k, w0.order k) := by simp [restoreStepFD, hl, hcF]
+      rw [hW, hF]
+      have hsw := extendF_sw sF.world (k, w0.order k)
+      by_cases he : (extendF sF.world (k, w0.order k)).2 = true
+      · have hstep : writeStep sF (k, w0.order k) = ⟨(extendF sF.world (k, w0.order k)).1, true, sF.trace⟩ := by
+          simp [writeStep, hl, he]
+        rw [hstep, restoreFD_skip w0 gls _ rfl]
+        refine ⟨?_, fun h => by simp at h⟩
+        show sF.trace <+: _
+        rw [ht]
+        exact (List.prefix_append sW.2 [(k, w0.order k)]).trans
+          (restoreWD_prefix w0 gls (applyWrite sW.1 (k, w0.order k), sW.2 ++ [(k, w0.order k)]))
+      · have he' : (extendF sF.world (k, w0.order k)).2 = false := by
+          cases h : (extendF sF.world (k, w0.order k)).2 <;> simp_all
+        have hstep : writeStep sF (k, w0.order k) =
+            ⟨(extendF sF.world (k, w0.order k)).1, false, sF.trace ++ [(k, w0.order k)]⟩ := by
+          simp [writeStep, hl, he']
+        rw [hstep]
+        simp only [he', Bool.false_eq_true, if_false] at hsw
+        exact ih _ _ rfl (by rw [hsw, hw]) (by rw [ht])
+    · have hc' : changedB (w0.order k) (sW.1.order k) = false := by
+        cases h : changedB (w0.order k) (sW.1.order k) <;> simp_all
+      have hcF : changedB (w0.order k) (sF.world.sw.order k) = false := by rw [hw]; exact hc'
+      have hW : restoreStepWD w0 sW k = sW := by simp [restoreStepWD, hc']
+      have hF : restoreStepFD w0 sF k = sF := by simp [restoreStepFD, hl, hcF]
+      rw [hW, hF]
+      exact ih sF sW hl hw ht
+
+/-- **C12_passF_refines_passW_D392**: `C12_passF_refines_passW` for the pass after the proposed fix D392
+    (`passFD` against `passWD`): no late raise, no failed assertion, the container writes of the full pass are a prefix
+    of the container-level pass's, and unless the pass is refused the two end alike. -/
+theorem C12_passF_refines_passW_D392 (w : FWorld) (roots : List (Nat × List Nat)) (gls : List Nat)
+    (hgl : graphLikes w.sw (roots.map Prod.fst) = some gls) (hc : passConsB w roots = true) :
+    (passFD w roots).out ≠ .late ∧ (passFD w roots).out ≠ .assertionError ∧
+    (passFD w roots).trace <+: (passWD w.sw roots gls).trace ∧
+    ((passFD w roots).out ≠ .refused →
+      (passFD w roots).out.toS = some (passWD w.sw roots gls).out ∧
+      (passFD w roots).world.sw = (passWD w.sw roots gls).world ∧
+      (passFD w roots).trace = (passWD w.sw roots gls).trace) := by
+  obtain ⟨_, a2⟩ := passSortsF_refines roots w hc
+  unfold passFD passWD
+  simp only [hgl]
+  by_cases hv : (passSortsF w roots).out = .valueError
+  · rcases a2 with ⟨hto, hwd, htr⟩ | ⟨hr, _⟩
+    · have hvW : (passSortsW w.sw roots).out = .valueError := (FOut.toS_ok hto).2.1.1 hv
+      obtain ⟨g1, g2⟩ := restoreFD_gen w.sw gls ⟨(passSortsF w roots).world, false, []⟩
+        ((passSortsW w.sw roots).world, []) rfl hwd rfl
+      simp only [hv, if_true, hvW]
+      refine ⟨by split <;> simp, by split <;> simp, ?_, ?_⟩
+      · rw [htr]; exact (List.prefix_append_right_inj _).2 g1
+      · intro hnr
+        have hl : (gls.foldl (restoreStepFD w.sw) ⟨(passSortsF w roots).world, false, []⟩).late = false := by
+          cases h : (gls.foldl (restoreStepFD w.sw) ⟨(passSortsF w roots).world, false, []⟩).late with
+          | false => rfl
+          | true => rw [h] at hnr; simp at hnr
+        obtain ⟨g3, g4⟩ := g2 hl
+        simp only [hl, Bool.false_eq_true, if_false]
+        exact ⟨rfl, g3, by rw [g4, htr]⟩
+    · rw [hv] at hr; cases hr
+  · simp only [hv, if_false]
+    rcases a2 with ⟨hto, hwd, htr⟩ | ⟨hr, hpre⟩
+    · have hvW : (passSortsW w.sw roots).out ≠ .valueError := fun h => hv ((FOut.toS_ok hto).2.1.2 h)
+      simp only [hvW, if_false]
+      exact ⟨(FOut.toS_ok hto).2.2.1, (FOut.toS_ok hto).2.2.2.1, by rw [htr]; exact List.prefix_refl _,
+        fun _ => ⟨hto, hwd, htr⟩⟩
+    · refine ⟨by rw [hr]; decide, by rw [hr]; decide, ?_, fun h => absurd hr h⟩
+      split
+      · exact hpre.trans (List.prefix_append _ _)
+      · exact hpre
+
 /-! ## non-vacuity -/
 
 /-- `g0 = [n1, n0]`, `n1` uses `n0` and owns the body `g1 = [n2]`, `n2` captures `n0` -/
@@ -1657,6 +1846,12 @@ example : passDisjB exP [(0, [1, 0]), (2, [2])] = true ∧ passDisjB exP [(0, [1
 example : passConsB (exF false) [(0, [1, 0])] = true ∧ graphLikes (exF false).sw [0] = some [0, 1] := by decide
 example : (passF (exF false) [(0, [1, 0])]).out = .ok ∧ (passF (exF true) [(0, [1, 0])]).out = .refused := by decide
 example : passConsB ((exF false).setNode 0 {}) [(0, [1, 0])] = false := by decide
+/-- Part J: over `exP` the pass sorts graph 0 (and its body 1), meets the cycle in graph 2 and restores: `passW` writes all
+    three recorded graph-likes, `passWD` only the one whose order changed; both end with the recorded orders -/
+example : (passW exP [(0, [1, 0]), (2, [2])] [0, 1, 2]).trace.length = 5 ∧
+    (passWD exP [(0, [1, 0]), (2, [2])] [0, 1, 2]).trace.length = 3 ∧
+    (passWD exP [(0, [1, 0]), (2, [2])] [0, 1, 2]).out = .valueError ∧
+    (passWD exP [(0, [1, 0]), (2, [2])] [0, 1, 2]).world.order 0 = [1, 0] := by decide
 example : (passW exW [(0, [1, 0])] [0, 1]).world.order 0 = [0, 1] ∧ sortModel ex1 = some [(0, [0, 1]), (1, [2])] := by decide
 
 example : Heap.isHeap (Heap.heapify [5, 3, 9, 1, 7]) = true ∧ Heap.heapify [5, 3, 9, 1, 7] = [1, 3, 9, 5, 7] := by decide
